@@ -260,7 +260,7 @@ def execute_highlevel(G, c):
             model.accept(model.engine_id, accepted[0], accepted[1])
         return outs
 
-    outs = drivers.run_calls(G, c["mode"], cfg, calls, handler, timeout=2.0, session_kw=c["kw"])
+    outs = drivers.run_calls(G, c["mode"], cfg, calls, handler, timeout=5.0, session_kw=c["kw"])
     if problems:
         raise problems[0]
     sent = idx["k"]
